@@ -9,15 +9,18 @@
 namespace ledger {
 static bool in_sut = false; static int64_t live = 0; static int64_t fail_countdown = 0; static uint64_t allocs_in_op = 0, failures = 0;
 static const uint64_t TAG_SUT = 0x5355545f414c4c4fULL, TAG_OTHER = 0x4f544845525f414cULL;
+#ifndef VERIF_NO_LEDGER
 static void* alloc(size_t n, bool nothrow) {
     if (in_sut) { ++allocs_in_op; if (fail_countdown > 0 && --fail_countdown == 0) { ++failures; if (nothrow) return 0; throw std::bad_alloc(); } }
     uint64_t* p = (uint64_t*)malloc(n + 16); if (!p) { if (nothrow) return 0; throw std::bad_alloc(); }
     p[0] = in_sut ? TAG_SUT : TAG_OTHER; p[1] = n; if (in_sut) ++live; return p + 2;
 }
 static void release(void* v) { if (!v) return; uint64_t* p = (uint64_t*)v - 2; if (p[0] == TAG_SUT) --live; p[0] = 0; free(p); }
+#endif
 struct Scope { bool prev; Scope() : prev(in_sut) { in_sut = true; } ~Scope() { in_sut = prev; } };
 #define SUT(...) do { ledger::Scope sut_scope_; __VA_ARGS__; } while (0)
 }
+#ifndef VERIF_NO_LEDGER   /* the valgrind flavour keeps the default allocator (valgrind replaces it itself) */
 void* operator new(size_t n) { return ledger::alloc(n, false); }
 void* operator new[](size_t n) { return ledger::alloc(n, false); }
 void* operator new(size_t n, const std::nothrow_t&) noexcept { return ledger::alloc(n, true); }
@@ -29,3 +32,4 @@ void operator delete[](void* p, size_t) noexcept { ledger::release(p); }
 void operator delete(void* p, const std::nothrow_t&) noexcept { ledger::release(p); }
 void operator delete[](void* p, const std::nothrow_t&) noexcept { ledger::release(p); }
 
+#endif
